@@ -385,7 +385,7 @@ func truthOf(bs []binRat, clamp, n int) *Truth {
 // preservation, purity of Encode (C14).
 func (r *Runner) encChk(e *skEntry, omit bool) string {
 	s := e.sk()
-	before := r.sketchObsQuiet(e)
+	before := r.obsBefore(e)
 	prefix := []byte{0xDE, 0xAD, 0xBE, 0xEF, 0x00, 0x81}
 	buf := append([]byte{}, prefix...)
 	var plainBytes []byte
